@@ -174,4 +174,54 @@ def tebd_controls(inp):
 
 
 # thorough tier (bounded native sweeps): (function, inputs, obligation of the open finding it reproduces or None)
-THOROUGH = [('chain_order', {}, None), ('control_order', {}, None), ('dynamics_with_controls', {}, None), ('tebd_controls', {}, None), ('float_time_controls', {}, None)]
+def mixed_specification_order(inp):
+    """two non-commuting kicks for the SAME step, one given by step number and one by float time, in both orders of addition, pre and
+    post: the recorded dynamics must be those of `second @ first`"""
+    import contextlib
+    import io
+    import scipy.linalg as la
+    import oqupy
+    from oqupy import operators as opr
+    rng = np.random.default_rng(7)
+
+    def rand_herm(d):
+        a = rng.normal(size=(d, d)) + 1j * rng.normal(size=(d, d))
+        return (a + a.conj().T) / 2
+    d, dt, N, K = 2, 0.1, 4, 2
+    H = rand_herm(d)
+    U = la.expm(-1j * H * dt)
+    P = opr.left_right_super(U, U.conj().T)
+    a = rand_herm(d)
+    rho0 = a @ a.conj().T
+    rho0 /= np.trace(rho0)
+
+    def kick():
+        u = la.expm(-1j * rand_herm(d))
+        return opr.left_right_super(u, u.conj().T)
+    A, B = kick(), kick()
+
+    def reference(post):
+        v, out = rho0.reshape(-1).astype(complex), []
+        for k in range(N + 1):
+            if k == K and not post:
+                v = B @ (A @ v)
+            out.append(v.reshape(d, d).copy())
+            if k == K and post:
+                v = B @ (A @ v)
+            v = P @ v
+        return np.array(out)
+    bad = []
+    for post in (False, True):
+        for s1, s2 in ((K, K * dt), (K * dt, K), (K, K), (K * dt, K * dt)):
+            c = oqupy.Control(d)
+            c.add_single(s1, A, post=post)
+            c.add_single(s2, B, post=post)
+            with contextlib.redirect_stdout(io.StringIO()):
+                dyn = oqupy.compute_dynamics(oqupy.System(H), initial_state=rho0, dt=dt, num_steps=N, control=c, progress_type='silent')
+            err = float(np.abs(np.array(dyn.states) - reference(post)).max())
+            if err > 1e-8:
+                bad.append({'post': post, 'added first at': repr(s1), 'added second at': repr(s2), 'deviation from the order of addition': err})
+    return {'violates': bool(bad), 'detail': bad}
+
+
+THOROUGH = [('chain_order', {}, None), ('control_order', {}, None), ('dynamics_with_controls', {}, None), ('tebd_controls', {}, None), ('float_time_controls', {}, None), ('mixed_specification_order', {}, 'ctrl/order-of-addition[step-and-float-time-at-one-step]')]
